@@ -535,9 +535,15 @@ class POP3SubprocessInterface:
         """
         try:
             while True:
-                if self.reader is None or self.reader.at_eof():
+                if self.reader is None:
                     break
-                msg = await self.reader.readuntil(b"\r\n")
+                # NOTE: We relay whatever has arrived, as it arrives. A line
+                #       of a retrieved message can be longer than the stream
+                #       reader's limit.
+                #
+                msg = await self.reader.read(65536)
+                if not msg:
+                    break
                 await self.pop3_client.push(msg)
         except (OSError, asyncio.IncompleteReadError, ConnectionResetError):
             pass
